@@ -7,9 +7,11 @@ the `conv`/`forge`/`create` lines of harness/rt.  For ALL 2^32 x 2^32 words and 
 Modelled, not verified: the `&Entity<A> -> &EntityAny` reference transmutes.
 -/
 import Gecs.Lemmas.Bits
+import Gecs.Lemmas.GenTie
 
 -- OBLIGATIONS: Gecs.C14_pack_unpack Gecs.C14_raw_roundtrip Gecs.C14_typed_conversion Gecs.C14_select
 -- OBLIGATIONS: Gecs.C14_eq_hash Gecs.C14_distinct_entities_unequal Gecs.C14_unchecked
+-- OBLIGATIONS: Gecs.gen_id_bits Gecs.gen_id_range Gecs.gen_max_capacity Gecs.gen_version_max Gecs.gen_slot_encoding_sound
 -- OBLIGATIONS: Gecs.packKey_eq_mkKey Gecs.keyIndex_eq Gecs.Key.index_lt Gecs.selectArch_spec Gecs.selectArchetypeId_spec
 
 namespace Gecs
